@@ -1069,8 +1069,8 @@ fiSIntTimesMod(FiSInt a,FiSInt  b,FiSInt m)
 FiSInt
 fiSIntTimesModInv(FiSInt a,FiSInt  b,FiSInt  m,FiDFlo  mi)
 {
-	/*!! Not yet implemented */
-	return 0;
+	/* mi = 1/m is only a speed hint. */
+	return (a * b) % m;
 }
 
 /*****************************************************************************
